@@ -437,11 +437,15 @@ class LibLab:
     def cleanup(self):
         shutil.rmtree(self.dir, ignore_errors=True)
 
-    def session(self, kind, ver, items, rnd, read_in_writer=True, mutate=None, legacy=(), before=None, fresh=False):
+    def session(self, kind, ver, items, rnd, read_in_writer=True, mutate=None, legacy=(), before=None, fresh=False,
+                pre=None, overwrite=False):
         """items: [(key, real object)] put through the library; legacy: [(key, raw record bytes)] placed in the
         legacy file beforehand, the way a previous molli left them (only with ver == 1).
         before = (ver0, items0, legacy0): the same is first done with ANOTHER file at the same path, which is then
         removed (event `remove`): the path is reused within this process.
+        pre = (ver0, items0, legacy0): state of the file BEFORE the library objects of interest are constructed
+        (ver0 = 0: no file); the objects that made it are dropped (event `forget`), then the writer is constructed
+        on the existing file -- with overwrite=True if `overwrite` -- stores `items`, and fresh objects read.
         fresh: the final file is kept and read once more by a separate python process (finish_fresh()).
         Returns the events.  mutate(event) may corrupt an event (binding demonstration only)."""
         self.n += 1
@@ -455,7 +459,17 @@ class LibLab:
                 self._phase(path, kind, before[0], before[1], before[2], rnd, ev, read_in_writer)
                 path.unlink()
                 ev.append({"ev": "remove"})
-            self._phase(path, kind, ver, items, legacy, rnd, ev, read_in_writer)
+            if pre is not None:
+                existing = []
+                if pre[0]:
+                    n0 = len(ev)
+                    self._phase(path, kind, pre[0], pre[1], pre[2], rnd, ev, read_in_writer)
+                    ev.append({"ev": "forget"})
+                    existing = [untok(e["k"]) for e in ev[n0:] if e["ev"] == "lput" or (e["ev"] == "put" and e["out"] == "ok")]
+                self._phase(path, kind, ver, items, (), rnd, ev, read_in_writer, create=False, overwrite=overwrite,
+                            existing=() if overwrite else existing)
+            else:
+                self._phase(path, kind, ver, items, legacy, rnd, ev, read_in_writer)
             if fresh and path.is_file():
                 keep = True
                 self.pending.append((str(path), kind, ev))
@@ -488,19 +502,21 @@ class LibLab:
             p, res = None, None
         for i, (path, kind, ev) in enumerate(self.pending):
             if res is None:
-                ev.append({"ev": "open", "h": "f", "kind": "Molecule" if kind == "mol" else "ConformerEnsemble",
+                ev.append({"ev": "open", "h": "f", "kind": "Molecule" if kind == "mol" else "ConformerEnsemble", "ow": False,
                            "out": "ChildProcessError", "keys": [], "err": (p.stderr[-300:] if p else "timeout")})
             else:
                 ev.extend(res[i])
                 self.calls += len(res[i])
         self.pending = []
 
-    def _phase(self, path, kind, ver, items, legacy, rnd, ev, read_in_writer):
+    def _phase(self, path, kind, ver, items, legacy, rnd, ev, read_in_writer, create=True, overwrite=False, existing=()):
+        """create: a legacy file (ver 1) is made first; otherwise the file is taken as the earlier phase left it.
+        overwrite: the writer is constructed with overwrite=True.  existing: keys already in the file (read too)."""
         cls = self.ml.MoleculeLibrary if kind == "mol" else self.ml.ConformerLibrary
         cname = "Molecule" if kind == "mol" else "ConformerEnsemble"
         w = r = None
         try:
-            if ver == 1:
+            if ver == 1 and create:
                 # a library of the previous format: UKV file whose type field is the legacy magic
                 with self.UKVFile(path, "x", h1=b"ML10Library"):
                     pass
@@ -511,9 +527,9 @@ class LibLab:
                             u.put(k.encode(), raw)
                             ev.append({"ev": "lput", "k": tok(k), "x": legacy_decode(raw, kind)})
             try:
-                w = cls(path, readonly=False)
+                w = cls(path, readonly=False, overwrite=True) if overwrite else cls(path, readonly=False)
                 with w.writing(timeout=60):
-                    ev.append({"ev": "open", "h": "w", "kind": cname, "out": "ok", "keys": sorted(tok(k) for k in w.keys())})
+                    ev.append({"ev": "open", "h": "w", "kind": cname, "ow": bool(overwrite), "out": "ok", "keys": sorted(tok(k) for k in w.keys())})
                     wk = []
                     for k, _ in legacy:
                         if read_in_writer and rnd.random() < 0.3:
@@ -539,12 +555,12 @@ class LibLab:
             except Watchdog:
                 raise
             except Exception as e:
-                ev.append({"ev": "open", "h": "w", "kind": cname, "out": exc_name(e), "keys": []})
+                ev.append({"ev": "open", "h": "w", "kind": cname, "ow": bool(overwrite), "out": exc_name(e), "keys": [], "err": str(e)[:160]})
             try:
                 r = cls(path, readonly=True)
                 with r.reading(timeout=60):
-                    ev.append({"ev": "open", "h": "r", "kind": cname, "out": "ok", "keys": sorted(tok(k) for k in r.keys())})
-                    ks = [k for k, _ in legacy] + [k for k, _ in items]
+                    ev.append({"ev": "open", "h": "r", "kind": cname, "ow": False, "out": "ok", "keys": sorted(tok(k) for k in r.keys())})
+                    ks = list(existing) + [k for k, _ in legacy] + [k for k, _ in items]
                     rnd.shuffle(ks)
                     rk = []
                     for k in ks:
@@ -557,7 +573,7 @@ class LibLab:
             except Watchdog:
                 raise
             except Exception as e:
-                ev.append({"ev": "open", "h": "r", "kind": cname, "out": exc_name(e), "keys": []})
+                ev.append({"ev": "open", "h": "r", "kind": cname, "ow": False, "out": exc_name(e), "keys": [], "err": str(e)[:160]})
         finally:
             for lib in (w, r):
                 if lib is not None:
@@ -728,14 +744,14 @@ def _fresh_main(job):
             lib = cls(path, readonly=True)
             with lib.reading(timeout=60):
                 keys = sorted(lib.keys())
-                ev.append({"ev": "open", "h": "f", "kind": cname, "out": "ok", "keys": sorted(tok(k) for k in keys)})
+                ev.append({"ev": "open", "h": "f", "kind": cname, "ow": False, "out": "ok", "keys": sorted(tok(k) for k in keys)})
                 for k in keys:
                     try:
                         ev.append({"ev": "get", "h": "f", "k": tok(k), "out": "ok", "x": abstract(lib[k])})
                     except Exception as e:
                         ev.append({"ev": "get", "h": "f", "k": tok(k), "out": exc_name(e), "err": str(e)[:160]})
         except Exception as e:
-            ev.append({"ev": "open", "h": "f", "kind": cname, "out": exc_name(e), "keys": [], "err": str(e)[:160]})
+            ev.append({"ev": "open", "h": "f", "kind": cname, "ow": False, "out": exc_name(e), "keys": [], "err": str(e)[:160]})
         out.append(ev)
     sys.stdout.write(json.dumps(out))
 
